@@ -72,6 +72,8 @@ def gen(rng, simname):
     elif cont == "tuple" and case["graph"]["label"] in ("tuple", "fset", "falsy"):
         cont = "list"
     case["container"] = cont
+    # the initially recovered set may be any sized collection too
+    case["r0_container"] = rng.choice(["list", "list", "tuple", "set", "dictkeys"])
     return case
 
 
